@@ -457,6 +457,10 @@ def run(ctx, idx):
             ctx.violate("C12.e", con, d.module.rel, bad[0][1], bad[0][2])
         else:
             read = {k for k, how, node, fk, dflt in r.kwreads}
+            # an input spelled out in the signature (`def execute(self, A, B, **kwargs)`) is read where its name is loaded
+            a_ = d.execute.node.args
+            named_ = {x_.arg for x_ in list(a_.args)[1:] + list(a_.kwonlyargs)}
+            read |= {n_.id for n_ in ast.walk(d.execute.node) if isinstance(n_, ast.Name) and isinstance(n_.ctx, ast.Load) and n_.id in named_}
             fwd = any(kws is not None for node, kws, ex, fk, tgt in r.super_calls)
             req = {nm for nm, p in d.inputs.items() if p.required}
             unread = req - read
